@@ -32,6 +32,7 @@ type writer struct {
 	b     strings.Builder
 	p     Pos
 	prevC bool // previous character was CR (a following LF belongs to it)
+	sinceCR int // bytes written since the last CR (-1: none yet)
 	label string
 	tape  *tape
 	lt    string // line terminator style: "\n", "\r\n", "\r", "\u2028", "\u2029", "mix"
@@ -59,13 +60,18 @@ func (t *tape) next(n int) int {
 }
 
 func newWriter(label string, tp *tape, lt string, uni bool) *writer {
-	return &writer{p: Pos{1, 1, 1, 1, 1, 1}, label: label, tape: tp, lt: lt, uni: uni}
+	return &writer{p: Pos{1, 1, 1, 1, 1, 1}, label: label, tape: tp, lt: lt, uni: uni, sinceCR: -1}
 }
 
 func (w *writer) raw(s string) {
 	for _, r := range s {
 		n := utf8.RuneLen(r)
 		w.b.WriteRune(r)
+		if r == '\r' {
+			w.sinceCR = 0
+		} else if w.sinceCR >= 0 {
+			w.sinceCR += n
+		}
 		switch r {
 		case '\n':
 			if w.prevC { // CRLF: already counted as one ES5 line terminator
@@ -101,6 +107,11 @@ func (w *writer) newline() {
 	}
 	if lt == "" {
 		lt = "\n"
+	}
+	if lt == "\n" && w.sinceCR == 1 {
+		// CR, one byte, LF is misread by otto's scanner (finding C03-ASI-CR-PEEK, not this property's
+		// concern): never generated
+		lt = "\r\n"
 	}
 	w.raw(lt)
 	w.raw(strings.Repeat(" ", w.ind*(1+w.tape.next(3))+w.tape.next(4)))
